@@ -182,7 +182,7 @@ def run(ctx):
         raise vlib.Infra("vacuous run: the real encoder never wrote a literal / never refused")
     # 3. impl -> spec
     rnd_tr = os.path.join(ctx.scratch, "wire-rnd.ndjson")
-    recs, _, _ = ctx.harness(binp, ["random", rnd_tr, "-seed", ctx.seed, "-scale", 2 if quick else 6], timeout=900)
+    recs, _, _ = ctx.harness(binp, ["random", rnd_tr, "-seed", ctx.seed, "-scale", 2 if quick else 10], timeout=900)
     s2 = ctx.summary(recs)
     ctx.take_mismatches(recs)
     lap("harness")
